@@ -219,4 +219,73 @@ match_list_precheck = Unit(
 )
 match_list_precheck.key_suffix = "length-precheck"
 
-UNITS = [match_list_precheck]
+# ----------------------------------------------------------------------------- _match_list: backtracking over the expansions
+def slice_backtracking(fn):
+    body = [s for s in fn.body if not (isinstance(s, ast.Expr) and isinstance(s.value, ast.Constant))]
+    for k, st in enumerate(body):
+        if isinstance(st, ast.Assign) and ast.unparse(st.targets[0]) == "permutations":
+            return body[k + 1:], "backtracking"
+    raise NotGenerated("_match_list: `permutations = ...` not found")
+
+
+MERGED = z3.Function("merged_match_of_expansion", z3.ArraySort(I, OBJ), I, OBJ, OBJ)     # (nodes, len(nodes), expansion) -> match tuple
+
+
+def g_nonempty(eng, args, kw, env, pc, node):
+    """truthiness of a match result: the executor's own truthiness for an opaque object (what `if merged:` tests), False for the literal ()"""
+    v = args[0]
+    from pyvc.values import VTuple
+    if isinstance(v, VTuple):
+        return VBool(z3.BoolVal(len(v.items) > 0))
+    return VBool(eng.truth(v))
+
+
+def g_same(eng, args, kw, env, pc, node):
+    a, b = args
+    from pyvc.values import VTuple
+    if isinstance(a, VTuple) or isinstance(b, VTuple):
+        return VBool(z3.BoolVal(False))
+    return VBool(a.t == b.t)
+
+
+def _merge_hook(eng, e, env, pc):
+    """merge_matches(permutation, <element-wise matches of nodes against permutation>): a deterministic function of (nodes, permutation).
+    The generator argument is not evaluated (its elements are match_template calls, the recursion the bounded stand-in covers)."""
+    perm = eng.ev(e.args[0], env, pc)
+    nodes = env["nodes"]
+    if len(e.args) != 2 or not isinstance(e.args[1], ast.Name) or e.args[1].id != "matches":
+        from pyvc.engine import Undecided
+        raise Undecided("merge_matches is not applied to the lazily computed element-wise matches", e.lineno)
+    return VObj(MERGED(nodes.arrs[()], nodes.len, perm.t))
+
+
+_merge_hook.lazy_args = True
+
+
+def _genexp_matches(eng, st, env, pc):
+    """`matches = (match_template(child, template_child, ...) for child, template_child in zip(nodes, permutation))`: kept lazy"""
+    env["matches"] = VObj(z3.Const("lazy_matches", OBJ))
+    return True
+
+
+def g_merged(eng, args, kw, env, pc, node):
+    nodes, perm = args
+    return VObj(MERGED(nodes.arrs[()], nodes.len, perm.t))
+
+
+match_list_backtracking = Unit(
+    "core", "_match_list", slice=slice_backtracking,
+    params={"nodes": ("seq", "obj"), "permutations": ("seq", "obj"), "ignore": "obj"}, returns="obj",
+    ensures=[
+        ("no-match-only-if-every-expansion-fails", "implies(not nonempty(result), forall(lambda k: implies(0 <= k and k < len(permutations), not nonempty(merged_of(nodes, permutations[k])))))"),
+        ("a-match-is-the-merged-match-of-some-expansion", "implies(nonempty(result), exists(lambda k: 0 <= k and k < len(permutations) and same(result, merged_of(nodes, permutations[k]))))"),
+    ],
+    loops={0: {"inv": ["forall(lambda k: implies(0 <= k and k < _i, not nonempty(merged_of(nodes, permutations[k]))))"]}},
+    calls={"merge_matches": _merge_hook, "match_template": ("uf", "obj"), "zip": ("uf", "obj")},
+    ghost={"merged_of": g_merged, "nonempty": g_nonempty, "same": g_same},
+    props=("C12",), lenient=True,
+    note="lenient only for the lazily evaluated generator expression `matches`; merge_matches is an uninterpreted function of (nodes, expansion); truthiness of a match tuple is an uninterpreted predicate, false for ()",
+)
+match_list_backtracking.key_suffix = "backtracking"
+
+UNITS = [match_list_precheck, match_list_backtracking]
